@@ -53,6 +53,24 @@ def gen_cases(ctx, rng):
             c.update({"chain": [m], "links": 1, "p": p})
             stats["create_p_mirrored"] += 1
         cases.append(c)
+    # toxicity updated while the connection's stage is stuck handing data to a receiver that takes longer than the 5 s after which
+    # other parts of the code give up: the update must still take effect on that connection
+    stats["update_01_backpressured"] = 0
+    for i in range(10 if ctx.tier == "quick" else 200):
+        a = rng.choice([0, 1])
+        m = L.tx("limit_data", name="x", bytes=1000)
+        m["toxicity"] = a
+        slow = rng.choice([6500, 9000, 15000]) * L.MS
+        src = [{"at": 1 * L.MS, "n": 100}, {"at": 2 * L.MS, "n": 100}]
+        t = 4 * slow
+        for _ in range(5):
+            src.append({"at": t, "n": 600})
+            t += 4 * slow
+        src.append({"at": t + 4 * slow, "close": True})
+        cases.append({"dir": rng.choice(["upstream", "downstream"]), "chain": [m], "src": src, "sink_delay": [slow], "links": 1,
+                      "ops": [{"at": rng.range(50, 900) * L.MS, "op": "update", "name": "x", "body": '{"toxicity": %d}' % (1 - a)}],
+                      "horizon": 3600 * 1000 * L.MS, "seed": 9000 + i, "c14": "update_01", "expect": [bool(1 - a)], "backpressured": True})
+        stats["update_01_backpressured"] += 1
     return cases, stats
 
 
@@ -100,7 +118,8 @@ def run(ctx):
         ctx, PID, gen_cases, oracle,
         classify=lambda w: "toxicity-01" if w.startswith("toxicity 0") or w.startswith("toxicity 1:") else ("toxicity-p" if "draw" in w else "crash"),
         rule="marker toxics (limit_data 0, timeout 0, latency 500 ms) with toxicity 0/1 at creation on 1-4 connections; toxicity updated 0/1 -> 0/1 "
-             "on 2-4 established connections; toxicity k/64 set by update on one connection with the deciding draw mirrored from the seed (exact "
+             "on 2-4 established connections, and on a connection whose stage is blocked for 6.5-15 s towards a slow receiver at the time of "
+             "the update; toxicity k/64 set by update on one connection with the deciding draw mirrored from the seed (exact "
              "prediction), or at creation (outcome must match one of the two start-up draws); non-trivial = an update or a fractional toxicity; "
              "distinct by JSON",
         nontrivial=lambda c: c.get("c14") in ("update_01", "update_p", "create_p"),
